@@ -558,6 +558,17 @@ theorem batchesAux_bounds (n : Nat) (hn : 0 < n) : ∀ (l cur : List (Nat × Nat
     · rename_i hlt
       exact batchesAux_bounds n hn rest (cur ++ [x]) (by simp at hlt ⊢; omega) b hb
 
+/-- what a batched query hands back: when the data plane answers each request with one report per URR it names, the
+    concatenation of the answers is one report per registered URR, in order — none twice, none missing — for EVERY number
+    of URRs, exact multiples of the batch size included -/
+theorem batched_answers_each_once {β : Type} (n : Nat) (l : List (Nat × Nat)) (f : Nat × Nat → β) :
+    (batches n l).flatMap (fun b => b.map f) = l.map f := by
+  have h := batches_flatten n l
+  calc (batches n l).flatMap (fun b => b.map f)
+      = ((batches n l).map (List.map f)).flatten := by rw [List.flatMap_def]
+    _ = ((batches n l).flatten).map f := by rw [List.map_flatten]
+    _ = l.map f := by rw [h]
+
 /-- every request names at least one and at most `n` URRs — for every list, every length, every limit `n > 0` -/
 theorem batches_bounds (n : Nat) (hn : 0 < n) (l : List (Nat × Nat)) : ∀ b ∈ batches n l, b ≠ [] ∧ b.length ≤ n :=
   batchesAux_bounds n hn l [] (by simpa using hn)
